@@ -445,6 +445,15 @@ def check(ctx):
     # products-minus-reactants counts (C03 R3.1 / R3.3) - re-emitted here
     from ..core import SubCtx
     from . import c03
+    # a queue delivery is "the delayed completion of a reaction that was initiated earlier": each entry put into the queue comes out
+    # once (C20 R20.1 add, R20.2 delivery) - re-emitted here for the delay-capable simulators
+    from . import c20
+    sub = SubCtx(ctx)
+    c20.check_add(sub)
+    c20.check_delivery(sub)
+    for rule, key, ok, where, what, detail in sub.got:
+        ctx.ob('R6.1-queue-deliveries', '%s/%s' % (rule, key), ok, where, what, detail)
+    ctx.floor('R6.1-queue-deliveries', 3)
     sub = SubCtx(ctx)
     c03.check_accumulation(sub)
     c03.check_matrices(sub)
